@@ -9,4 +9,5 @@ mkdir -p .build evidence replays
 mv -f .build_gen_status.json .build/gen_status.json
 ( cd coq && coq_makefile -f _CoqProject -o Makefile > /dev/null && timeout 3000 make -j16 -k > ../.build/coq_build.log 2>&1 || true )
 ( cd /repo && RUSTFLAGS="--cfg picilisp_verif" CARGO_TARGET_DIR=/verif/.build/target-verif timeout 3000 cargo build --offline --release > /verif/.build/cargo_release.log 2>&1 )
+( cd /repo && RUSTFLAGS="--cfg picilisp_verif" CARGO_TARGET_DIR=/verif/.build/target-verif timeout 3000 cargo build --offline > /verif/.build/cargo_debug.log 2>&1 )
 echo "setup done"
